@@ -6,7 +6,7 @@ prop, seed = sys.argv[1], int(sys.argv[2])
 prof = stage_e2e.PROFILES.get(prop, stage_e2e.PROFILES["default"])
 rng = random.Random(seed)
 gen_kw = dict(prof["gen"])
-style = gen_kw.pop("style", None) or rng.choice(["plaintext", "numpydoc", "google", "rest"])
+style = gen_kw.pop("style", None) or rng.choice(prof.get("styles", ["plaintext", "numpydoc", "google", "rest"]))
 pkg = pkggen.PkgGen(rng, style=style, **gen_kw).package()
 files = pkggen.render(pkg)
 top = implrun.WORK / f"case_{seed}"
